@@ -22,6 +22,9 @@ struct Plan {
     /// burst cases: fail the k-th write into the allocation journal (blocks 1..=6), once
     journal_k: Mutex<Option<u64>>,
     journal_seen: AtomicU64,
+    /// key-fail cases: every write whose payload holds this key fails (before the bytes reach the file)
+    refuse_key: Mutex<Option<Vec<u8>>>,
+    refused: AtomicU64,
 }
 
 impl Plan {
@@ -51,7 +54,14 @@ impl Plan {
 }
 
 impl Observer for Plan {
-    fn write(&self, _fd: i32, offset: u64, _data: &[u8], _ring: bool) -> Decision {
+    fn write(&self, _fd: i32, offset: u64, data: &[u8], _ring: bool) -> Decision {
+        if let Some(key) = self.refuse_key.lock().unwrap().as_ref() {
+            if data.windows(key.len()).any(|w| w == key.as_slice()) {
+                self.refused.fetch_add(1, Ordering::SeqCst);
+                return Decision::FailBefore;
+            }
+            return Decision::Proceed;
+        }
         self.decide_write(offset)
     }
     fn fsync(&self, _fd: i32) -> Decision {
@@ -411,6 +421,144 @@ fn big_case(rng: &mut Rng, case: u64, dir: &str, plan: &Arc<Plan>) -> (String, S
     (case_text, lines.join(" | "), verdict)
 }
 
+/// Oracle-only case (C09, several workers): the device refuses every write of ONE key's record
+/// while everything else -- the other keys' records, journal, markers, metadata, every fsync --
+/// goes through, and the periodic flusher and the other shards' workers keep running healthy
+/// passes.  The key's new generation (a TTL renewal of an offloaded value, a TTL removal, or a
+/// replacement) is accepted in memory and cannot be written.  Then: flush() reports the failure;
+/// reads return the accepted value; a copy of the device as it stands still recovers a generation
+/// of the key (the durable one is not destroyed while its successor cannot be written); once the
+/// device accepts the record again, flush() succeeds and a copy of the device recovers the
+/// accepted state.
+fn keyfail_case(rng: &mut Rng, case: u64, dir: &str, plan: &Arc<Plan>) -> (String, String, String) {
+    let path = format!("{dir}/dev/fpk_{}_{case}.feox", std::process::id());
+    let copy = format!("{dir}/dev/fpk_{}_{case}.copy", std::process::id());
+    let _ = std::fs::remove_file(&path);
+    plan.armed.store(false, Ordering::SeqCst);
+    plan.refused.store(0, Ordering::SeqCst);
+    *plan.refuse_key.lock().unwrap() = None;
+    let kind = *rng.pick(&["renew-ttl", "renew-ttl", "persist", "replace", "replace-ttl"]);
+    let store = match FeoxStore::builder().device_path(path.clone()).file_size(8 << 20).enable_ttl(true).enable_caching(rng.chance(1, 4)).no_memory_limit().build() {
+        Ok(s) => s,
+        Err(e) => return ("note failpath-keyfail".into(), "note".into(), format!("FAIL cannot-create-store {e}")),
+    };
+    let victim = format!("victim/{case}/refused-record-key").into_bytes();
+    let vlen = rng.range(200, 9000) as usize;
+    let old = value_of(case, vlen);
+    let mut verdict = "ok".to_string();
+    let fail = |v: &mut String, why: String| {
+        if v == "ok" {
+            *v = why;
+        }
+    };
+    let r0 = if kind == "persist" { store.insert_with_ttl(&victim, &old, 3600) } else { store.insert(&victim, &old) };
+    if let Err(e) = r0 {
+        fail(&mut verdict, format!("FAIL insert-refused {e}"));
+    }
+    for i in 0..rng.range(0, 20) {
+        let _ = store.insert(format!("before/{case}/{i:03}").as_bytes(), b"some-value");
+    }
+    if let Err(e) = store.flush() {
+        fail(&mut verdict, format!("FAIL fault-free-flush-failed {e}"));
+    }
+    // the periodic flusher and the other workers run while the victim's record is refused
+    feoxdb::verif::dev::set_periodic_flush_paused(false);
+    *plan.refuse_key.lock().unwrap() = Some(victim.clone());
+    let mut latest = old.clone();
+    let op = match kind {
+        "renew-ttl" => store.update_ttl(&victim, 3600).map(|_| ()),
+        "persist" => store.persist(&victim).map(|_| ()),
+        "replace" => {
+            latest = value_of(case + 1_000_000, rng.range(200, 9000) as usize);
+            store.insert(&victim, &latest).map(|_| ())
+        }
+        _ => {
+            latest = value_of(case + 2_000_000, rng.range(200, 9000) as usize);
+            store.insert_with_ttl(&victim, &latest, 3600).map(|_| ())
+        }
+    };
+    if let Err(e) = op {
+        fail(&mut verdict, format!("FAIL operation-refused kind={kind} {e}"));
+    }
+    let first = store.flush();
+    if first.is_ok() {
+        fail(&mut verdict, format!("FAIL flush-returned-Ok-while-the-record-of-an-accepted-write-was-refused kind={kind} refused={}", plan.refused.load(Ordering::SeqCst)));
+    }
+    let waves = rng.range(2, 5);
+    for wave in 0..waves {
+        for i in 0..rng.range(8, 40) {
+            let _ = store.insert(format!("filler/{case}/{wave}/{i:03}").as_bytes(), b"filler-value");
+        }
+        std::thread::sleep(std::time::Duration::from_millis(rng.range(120, 320)));
+        if rng.chance(1, 3) {
+            let _ = store.flush();
+        }
+    }
+    match store.get(&victim) {
+        Ok(v) if v == latest => {}
+        Ok(_) => fail(&mut verdict, format!("FAIL read-returned-other-bytes-while-the-record-is-refused kind={kind}")),
+        Err(e) => fail(&mut verdict, format!("FAIL accepted-key-unreadable-while-its-record-is-refused kind={kind} error={e}").replace(": ", "=")),
+    }
+    let recover = |what: &str, want: &[&Vec<u8>], v: &mut String| {
+        if std::fs::copy(&path, &copy).is_err() {
+            return;
+        }
+        match FeoxStore::builder().device_path(copy.clone()).enable_ttl(true).enable_caching(false).build() {
+            Ok(r) => {
+                match r.get(&victim) {
+                    Ok(found) if want.iter().any(|w| **w == found) => {}
+                    Ok(_) => {
+                        if v == "ok" {
+                            *v = format!("FAIL {what}-recovers-other-bytes-for-the-key kind={kind}");
+                        }
+                    }
+                    Err(e) => {
+                        if v == "ok" {
+                            *v = format!("FAIL {what}-has-lost-the-key kind={kind} error={e}").replace(": ", "=");
+                        }
+                    }
+                }
+                drop(r);
+            }
+            Err(e) => {
+                if v == "ok" {
+                    *v = format!("FAIL {what}-does-not-open kind={kind} error={e}").replace(": ", "=");
+                }
+            }
+        }
+        let _ = std::fs::remove_file(&copy);
+    };
+    recover("the-device-as-it-stands-during-the-failure", &[&old, &latest], &mut verdict);
+    // the device accepts the record again
+    *plan.refuse_key.lock().unwrap() = None;
+    let mut healed = Vec::new();
+    for _ in 0..4 {
+        let r = store.flush();
+        healed.push(class(&r));
+        if r.is_ok() {
+            break;
+        }
+    }
+    if healed.last().map(|s| s.as_str()) != Some("ok") {
+        fail(&mut verdict, format!("FAIL flush-keeps-failing-after-the-device-recovered kind={kind} results={healed:?}").replace(' ', ""));
+    } else {
+        match store.verif_snapshot().iter().find(|x| x.key == victim) {
+            Some(x) if x.sector != 0 => {}
+            _ => fail(&mut verdict, format!("FAIL flush-returned-Ok-but-the-accepted-generation-is-not-on-the-device kind={kind}")),
+        }
+        match store.get(&victim) {
+            Ok(v) if v == latest => {}
+            _ => fail(&mut verdict, format!("FAIL accepted-value-unreadable-after-the-device-recovered kind={kind}")),
+        }
+        recover("the-device-after-the-successful-flush", &[&latest], &mut verdict);
+    }
+    let refused = plan.refused.load(Ordering::SeqCst);
+    feoxdb::verif::dev::set_periodic_flush_paused(true);
+    drop(store);
+    let _ = std::fs::remove_file(&path);
+    (format!("note failpath-keyfail kind={kind} vlen={vlen} waves={waves} refused-writes={refused} first-flush={} healed={}", class(&first), healed.join(",")), "note".into(), verdict)
+}
+
 pub fn child(opts: &Opts) -> i32 {
     let dir = opts.str("out", "/verif/.build/cases/failpath");
     let sh = opts.u64("shard", 0);
@@ -418,7 +566,7 @@ pub fn child(opts: &Opts) -> i32 {
     let n = opts.u64("n", 20);
     let burst_every = opts.u64("burst_every", 12).max(1);
     std::fs::create_dir_all(format!("{dir}/dev")).unwrap();
-    let plan = Arc::new(Plan { armed: AtomicBool::new(false), calls: AtomicU64::new(0), fail: Mutex::new(BTreeMap::new()), journal_k: Mutex::new(None), journal_seen: AtomicU64::new(0) });
+    let plan = Arc::new(Plan { armed: AtomicBool::new(false), calls: AtomicU64::new(0), fail: Mutex::new(BTreeMap::new()), journal_k: Mutex::new(None), journal_seen: AtomicU64::new(0), refuse_key: Mutex::new(None), refused: AtomicU64::new(0) });
     feoxdb::verif::dev::set_force_sync_path(true);
     feoxdb::verif::dev::set_periodic_flush_paused(true);
     feoxdb::verif::dev::install(Some(plan.clone()));
@@ -426,7 +574,10 @@ pub fn child(opts: &Opts) -> i32 {
     let mut rng = Rng::new(seed.wrapping_mul(40_503).wrapping_add(sh * 65_537));
     for case in 0..n {
         let big_every = opts.u64("big_every", 0);
-        let (c, l, v) = if big_every > 0 && case % big_every == big_every - 1 {
+        let keyfail_every = opts.u64("keyfail_every", 0);
+        let (c, l, v) = if keyfail_every > 0 && case % keyfail_every == keyfail_every / 2 {
+            keyfail_case(&mut rng, case, &dir, &plan)
+        } else if big_every > 0 && case % big_every == big_every - 1 {
             big_case(&mut rng, case, &dir, &plan)
         } else if case % burst_every == burst_every - 1 {
             burst_case(&mut rng, case, &dir, &plan)
@@ -447,11 +598,12 @@ pub fn run(opts: &Opts) -> i32 {
     let n = opts.u64("n", if opts.thorough() { 1500 } else { 60 });
     let burst_every = opts.u64("burst_every", 12);
     let big_every = opts.u64("big_every", 0);
+    let keyfail_every = opts.u64("keyfail_every", 0);
     let mut handles = Vec::new();
     for sh in 0..shards {
         let dir = dir.clone();
         handles.push(std::thread::spawn(move || {
-            run_child(&["failpathchild".into(), format!("out={dir}"), format!("shard={sh}"), format!("seed={seed}"), format!("n={n}"), format!("burst_every={burst_every}"), format!("big_every={big_every}")], 300 + n * 4)
+            run_child(&["failpathchild".into(), format!("out={dir}"), format!("shard={sh}"), format!("seed={seed}"), format!("n={n}"), format!("burst_every={burst_every}"), format!("big_every={big_every}"), format!("keyfail_every={keyfail_every}")], 300 + n * 4)
         }));
     }
     let mut total = 0u64;
